@@ -1,0 +1,136 @@
+//go:build verif
+
+package billstat
+
+// Contracts for govc (see /verif/DESIGN.md).  Comment-only file.
+
+//@ import agd github.com/AdguardTeam/AdGuardDNS/internal/agd
+
+// C16: billing counts are conserved.  Each method's critical section is one
+// atomic action on the recorder's state; its contract describes the action
+// relative to the state at lock acquisition (locked(...)).  Conservation over
+// arbitrary interleavings of these actions is the lemma at the end.
+
+//@ interface Metrics method *
+//@   modifies nothing
+
+// While the mutex is free, any records map and any record may be changed by
+// other goroutines; what is guaranteed is that the current map exists and
+// holds no nil records.
+//@ lock RuntimeRecorder self.mu
+//@   protects self.records, allmaps(Records), Record.*
+//@   invariant self.records != nil && (forall id agd.DeviceID :: has(self.records, id) ==> self.records[id] != nil)
+
+// Ghost record of the hand-overs between the three critical sections and the
+// uploader.
+//@ ghost resetOut Records
+//@ ghost resetCount int
+//@ ghost remergeIn Records
+//@ ghost remergeCount int
+//@ ghost uploadIn Records
+//@ ghost uploadCount int
+//@ interface Uploader method Upload
+//@   modifies uploadIn, uploadCount
+//@   ensures uploadCount == old(uploadCount) + 1 && uploadIn == records
+
+// pendOf: the number of queries held for a device in a records map.
+//@ pred pendOf(m Records, id agd.DeviceID) = has(m, id) ? m[id].Queries : 0
+
+//@ func (*RuntimeRecorder).Record
+//@   property C16
+//@   requires r.mu != nil && r.metrics != nil
+//@   modifies allmaps(Records), Record.*
+//@   ensures same-map: r.records == locked(r.records)
+//@   ensures counted-once: locked(pendOf(r.records, id)) < 2147483647 ==> pendOf(r.records, id) == locked(pendOf(r.records, id)) + 1
+//@   ensures other-devices-untouched: forall j agd.DeviceID :: j != id && !(has(r.records, j) && r.records[j] == r.records[id]) ==>
+//@             pendOf(r.records, j) == locked(pendOf(r.records, j))
+//@   ensures most-recent-query: has(r.records, id) && r.records[id].Time == start && r.records[id].Country == ctry &&
+//@             r.records[id].ASN == asn && r.records[id].Proto == proto
+
+//@ func (*RuntimeRecorder).resetRecords
+//@   property C16
+//@   requires r.mu != nil && r.metrics != nil
+//@   modifies r.records, allmaps(Records), resetOut, resetCount
+//@   ghostset resetOut = records
+//@   ghostset resetCount = resetCount + 1
+//@   ensures resetOut == records && resetCount == old(resetCount) + 1 && records != nil
+//@   ensures forall j agd.DeviceID :: has(records, j) ==> records[j] != nil
+//@   ensures hands-over-everything: records == locked(r.records) && (forall j agd.DeviceID :: pendOf(records, j) == locked(pendOf(r.records, j)))
+//@   ensures starts-empty: fresh(r.records) && r.records != records && (forall j agd.DeviceID :: !has(r.records, j))
+
+// sep: the in-flight map is not the current one and shares no record with it.
+//@ pred sepMaps(a Records, b Records) = a != b && (forall i agd.DeviceID, j agd.DeviceID :: has(a, i) && has(b, j) ==> a[i] != b[j])
+//@ pred injMap(a Records) = forall i agd.DeviceID, j agd.DeviceID :: has(a, i) && has(a, j) && i != j ==> a[i] != a[j]
+
+//@ func (*RuntimeRecorder).remergeRecords
+//@   let recs = records
+//@   property C16
+//@   requires r.mu != nil && r.metrics != nil && records != nil
+//@   requires forall id agd.DeviceID :: has(records, id) ==> records[id] != nil
+//@   rely forall id agd.DeviceID :: has(records, id) == old(has(records, id)) && records[id] == old(records[id])
+//@   modifies allmaps(Records), Record.*, remergeIn, remergeCount
+//@   ghostset remergeIn = records
+//@   ghostset remergeCount = remergeCount + 1
+//@   ensures remergeIn == records && remergeCount == old(remergeCount) + 1
+//@   ensures same-map: r.records == locked(r.records)
+//@   ensures nothing-lost-nothing-doubled: locked(goodStartP(records, r.records)) ==>
+//@             (forall id agd.DeviceID :: pendOf(r.records, id) == wrap32(locked(pendOf(r.records, id)) + locked(pendOf(records, id))))
+//@   ensures newer-metadata-kept: forall id agd.DeviceID :: locked(has(r.records, id)) ==> has(r.records, id) && r.records[id] == locked(r.records[id])
+//@   loop 1 invariant r.records == locked(r.records) && r.records != nil
+//@   loop 1 invariant forall id agd.DeviceID :: has(records, id) == locked(has(records, id)) && records[id] == locked(records[id])
+//@   loop 1 invariant forall id agd.DeviceID :: locked(has(r.records, id)) ==> has(r.records, id) && r.records[id] == locked(r.records[id])
+//@   loop 1 invariant forall id agd.DeviceID :: has(r.records, id) && !locked(has(r.records, id)) ==> #seen[id] && locked(has(records, id)) && r.records[id] == locked(records[id])
+//@   loop 1 invariant locked(goodStartP(records, r.records)) ==> (forall id agd.DeviceID :: has(records, id) ==> records[id].Queries == locked(records[id].Queries))
+//@   loop 1 invariant locked(goodStartP(records, r.records)) ==> (forall id agd.DeviceID :: #seen[id] ==> pendOf(r.records, id) == wrap32(locked(pendOf(r.records, id)) + locked(pendOf(records, id))))
+//@   loop 1 invariant locked(goodStartP(records, r.records)) ==> (forall id agd.DeviceID :: !#seen[id] ==> pendOf(r.records, id) == locked(pendOf(r.records, id)))
+
+//@ pred goodStartP(records Records, cur Records) = sepMaps(records, cur) && injMap(records) && injMap(cur) && (forall id agd.DeviceID :: has(records, id) ==> records[id] != nil)
+//@ pred wrap32(x int) = wrap(x, int32)
+
+// Refresh: everything held is handed to exactly one upload; the same map is
+// merged back exactly when the upload failed, and never after a success.
+//@ func (*RuntimeRecorder).Refresh
+//@   property C16
+//@   requires r.mu != nil && r.metrics != nil && r.uploader != nil && r.logger != nil
+//@   rely forall m Records, id agd.DeviceID :: m == resetOut ==> has(m, id) == old(has(m, id)) && m[id] == old(m[id])
+//@   modifies r.records, allmaps(Records), Record.*, resetOut, resetCount, remergeIn, remergeCount, uploadIn, uploadCount
+//@   ensures one-upload-of-what-was-held: resetCount == old(resetCount) + 1 && uploadCount == old(uploadCount) + 1 && uploadIn == resetOut
+//@   ensures failed-upload-loses-nothing: err != nil ==> remergeCount == old(remergeCount) + 1 && remergeIn == resetOut
+//@   ensures successful-upload-doubles-nothing: err == nil ==> remergeCount == old(remergeCount)
+
+// Conservation, as a consequence of the four atomic actions above.  For every
+// device: recorded == delivered + pending (current map) + in flight (map held
+// by a running Refresh).  Each lemma takes one action's contract as its
+// hypothesis (pend/fly are the pendOf views of the current and the in-flight
+// map) and concludes that the equation is preserved.
+//
+//@ pred cons(rec map[int]int, del map[int]int, pend map[int]int, fly map[int]int) = forall d int :: rec[d] == del[d] + pend[d] + fly[d]
+
+//@ lemma conservation-record
+//@   property C16
+//@   forall rec map[int]int, del map[int]int, pend map[int]int, fly map[int]int, rec2 map[int]int, pend2 map[int]int, id int
+//@   requires cons(rec, del, pend, fly)
+//@   requires pend2[id] == pend[id] + 1 && rec2[id] == rec[id] + 1
+//@   requires forall j int :: j != id ==> pend2[j] == pend[j] && rec2[j] == rec[j]
+//@   ensures cons(rec2, del, pend2, fly)
+
+//@ lemma conservation-reset
+//@   property C16
+//@   forall rec map[int]int, del map[int]int, pend map[int]int, fly map[int]int, pend2 map[int]int, fly2 map[int]int
+//@   requires cons(rec, del, pend, fly) && (forall d int :: fly[d] == 0)
+//@   requires forall d int :: fly2[d] == pend[d] && pend2[d] == 0
+//@   ensures cons(rec, del, pend2, fly2)
+
+//@ lemma conservation-upload-ok
+//@   property C16
+//@   forall rec map[int]int, del map[int]int, pend map[int]int, fly map[int]int, del2 map[int]int, fly2 map[int]int
+//@   requires cons(rec, del, pend, fly)
+//@   requires forall d int :: del2[d] == del[d] + fly[d] && fly2[d] == 0
+//@   ensures cons(rec, del2, pend, fly2)
+
+//@ lemma conservation-remerge
+//@   property C16
+//@   forall rec map[int]int, del map[int]int, pend map[int]int, fly map[int]int, pend2 map[int]int, fly2 map[int]int
+//@   requires cons(rec, del, pend, fly)
+//@   requires forall d int :: pend2[d] == pend[d] + fly[d] && fly2[d] == 0
+//@   ensures cons(rec, del, pend2, fly2)
